@@ -7,3 +7,5 @@ pub mod sink;
 pub mod decl;
 pub mod gencrate;
 pub mod genrun;
+pub mod tracerun;
+pub mod fuzzrun;
